@@ -360,7 +360,12 @@ impl ChessMove {
             }
 
             if !ep && takes {
-                if board.piece_on(m.get_dest()).is_none() {
+                // a pawn changing files onto an empty square is an en passant capture,
+                // which is written with 'x' whether or not " e.p." follows
+                if board.piece_on(m.get_dest()).is_none()
+                    && !(moving_piece == Piece::Pawn
+                        && m.get_source().get_file() != m.get_dest().get_file())
+                {
                     continue;
                 }
             }
